@@ -454,11 +454,33 @@ Proof.
   repeat rewrite <- app_assoc. reflexivity.
 Qed.
 
-Lemma exec_epb ro F s ifid ts caplen len data o rest :
+(* readPacket with the fuel of its block loop made a parameter: readPacket ro F = readPacketG ro F F *)
+Definition rp_tail (ro : ropts) (F : nat) : SM pkt :=
+  s <- sget ;;
+  let ci := r_ci s in
+  let cap := ci_cap ci in
+  let snap := match nth_error (r_ifaces s) (Z.to_nat (ci_if ci)) with Some i => if_snap i | None => 0 end in
+  (if ro_zc ro then
+     (if r_pcap s <? cap then
+        s_alloc (Z.max snap cap) snap ;;; smod (fun s => set_pcap s (Z.max snap cap))
+      else sret tt)
+   else s_alloc cap snap) ;;;
+  data <- s_rd cap ;;
+  sub_blen cap ;;;
+  (if 0 <? pad4 cap then s_disc (pad4 cap) else sret tt) ;;;
+  opts <- (if r_btyp s =? 6 then pkt_opts F empty_popts else sret empty_popts) ;;
+  s2 <- sget ;;
+  s_disc (r_blen s2) ;;;
+  sret (mkPkt ci (if ro_mixed ro then r_ancil s else -1) data opts).
+Definition readPacketG (ro : ropts) (F g : nat) : SM pkt := readPacketHeader ro F g ;;; rp_tail ro F.
+Lemma readPacket_unfold ro F : readPacket ro F = readPacketG ro F F.
+Proof. reflexivity. Qed.
+
+Lemma exec_epb_g ro F g s ifid ts caplen len data o rest :
   ro_mixed ro = true -> r_big s = false -> (length (popts_to_options o) + 2 < F)%nat ->
   wf_packet (r_ifaces s) ifid ts caplen len data o ->
   exists s' i, nth_error (r_ifaces s) (Z.to_nat ifid) = Some i /\
-    exec (readPacket ro F) s (enc_epb ifid ts caplen len data o ++ rest)
+    exec (readPacketG ro F (S g)) s (enc_epb ifid ts caplen len data o ++ rest)
       = ((s', Ok (mkPkt (mkCi ifid (ts / E9, ts mod E9) caplen len) (if_link i) data o)), rest)
     /\ r_big s' = false /\ r_ifaces s' = r_ifaces s /\ r_link s' = r_link s /\ r_first s' = r_first s
     /\ r_sect s' = r_sect s /\ r_names s' = r_names s.
@@ -478,7 +500,7 @@ Proof.
   repeat rewrite <- app_assoc.
   set (tail := data ++ zeros (pad4 (zlen data)) ++ opts_enc options ++ le_bytes 4 L ++ rest).
   (* the header *)
-  assert (exists s1, exec (readPacketHeader ro (S f) (S f)) s (le_bytes 4 6 ++ le_bytes 4 L ++ b20 ++ tail) = ((s1, Ok tt), tail)
+  assert (exists s1, exec (readPacketHeader ro (S f) (S g)) s (le_bytes 4 6 ++ le_bytes 4 L ++ b20 ++ tail) = ((s1, Ok tt), tail)
             /\ r_big s1 = false /\ r_btyp s1 = 6 /\ r_blen s1 = L - 28
             /\ r_ci s1 = mkCi ifid (ts / E9, ts mod E9) caplen len /\ r_ancil s1 = if_link i
             /\ r_ifaces s1 = r_ifaces s /\ r_link s1 = r_link s /\ r_first s1 = r_first s /\ r_pcap s1 = r_pcap s
@@ -501,7 +523,7 @@ Proof.
     rewrite exec_sret. cbv iota beta.
     rewrite exec_bind, exec_sget. cbv iota beta. sim. rewrite Ei. rewrite Hmix. cbn [negb].
     rewrite exec_smod. eexists. split; [reflexivity|]. sim. repeat split; auto. lia. }
-  unfold readPacket. rewrite exec_bind, Eh. cbv iota beta.
+  unfold readPacketG, rp_tail. rewrite exec_bind, Eh. cbv iota beta.
   rewrite exec_bind, exec_sget. cbv iota beta. rewrite A4, A2, A5. sim. rewrite A6, Ei.
   (* allocation: three ways, the same afterwards *)
   assert (exists s2, exec (if ro_zc ro
@@ -546,3 +568,17 @@ Proof.
   eexists. exists i. split; [first [exact Ei|reflexivity]|]. split; [reflexivity|]. sim.
   repeat split; congruence.
 Qed.
+
+Lemma exec_epb ro F s ifid ts caplen len data o rest :
+  ro_mixed ro = true -> r_big s = false -> (length (popts_to_options o) + 2 < F)%nat ->
+  wf_packet (r_ifaces s) ifid ts caplen len data o ->
+  exists s' i, nth_error (r_ifaces s) (Z.to_nat ifid) = Some i /\
+    exec (readPacket ro F) s (enc_epb ifid ts caplen len data o ++ rest)
+      = ((s', Ok (mkPkt (mkCi ifid (ts / E9, ts mod E9) caplen len) (if_link i) data o)), rest)
+    /\ r_big s' = false /\ r_ifaces s' = r_ifaces s /\ r_link s' = r_link s /\ r_first s' = r_first s
+    /\ r_sect s' = r_sect s /\ r_names s' = r_names s.
+Proof.
+  intros Hmix Hbig HF Hwf. rewrite readPacket_unfold. destruct F as [|f]; [lia|].
+  apply exec_epb_g; assumption.
+Qed.
+
